@@ -14,6 +14,11 @@ const DAY: u64 = 86_400_000;
 
 struct RowInfo {
     ent: u64,
+    /// the last version was made by an unbatched new/upd: a same-millisecond update may compete with it
+    contestable: bool,
+    hi_used: u64,
+    lo_used: u64,
+    episode: u64,
     holders: BTreeSet<usize>,
     refs: BTreeSet<u64>,
     last_t: u64,
@@ -93,22 +98,49 @@ impl<'a> CaseGen<'a> {
         self.push(format!("new p={} row={} room={} ent={} val={} sig={}", p, row, room, ent, v, s));
         let mut holders = BTreeSet::new();
         holders.insert(p);
-        self.rows.insert(row, RowInfo { ent, holders, refs: BTreeSet::new(), last_t: t });
+        let contestable = self.in_batch.is_none();
+        self.rows.insert(row, RowInfo { ent, contestable, hi_used: 0, lo_used: 0, episode: 0, holders, refs: BTreeSet::new(), last_t: t });
         self.touch(row);
     }
     fn upd(&mut self, p: usize, move_room: bool) {
         if let Some(row) = self.pick_row(p, false) {
-            if self.in_batch.is_some() || self.rows[&row].last_t == self.t && !self.rows[&row].holders.contains(&p) {
+            let same_ms = self.rows[&row].last_t == self.t;
+            let r = &self.rows[&row];
+            let can_contest = r.contestable && self.in_batch.is_none() && (r.hi_used < 3 || r.lo_used < 3);
+            if self.in_batch.is_some() || (same_ms && !can_contest) {
                 self.t += 1;
                 let t = self.t;
                 self.push(format!("clock t={}", t));
             }
             self.val += 1;
-            let (v, s) = (self.val, self.sig());
+            let conflict = self.rows[&row].last_t == self.t;
+            let v = self.val;
+            let s = if conflict {
+                let r = self.rows.get_mut(&row).unwrap();
+                let up = if r.hi_used >= 3 { false } else if r.lo_used >= 3 { true } else { self.g.chance(1, 2) };
+                if up {
+                    r.hi_used += 1;
+                    3_000_000 + row * 10_000 + r.episode * 10 + r.hi_used
+                } else {
+                    r.lo_used += 1;
+                    1_000_000 + row * 10_000 + r.episode * 10 + (3 - r.lo_used)
+                }
+            } else {
+                let r = self.rows.get_mut(&row).unwrap();
+                if r.hi_used + r.lo_used > 0 {
+                    r.episode += 1;
+                }
+                r.hi_used = 0;
+                r.lo_used = 0;
+                self.sig()
+            };
             let room = if move_room { format!(" room={}", 1 + self.g.below(2)) } else { String::new() };
             self.push(format!("upd p={} row={} val={} sig={}{}", p, row, v, s, room));
             let t = self.t;
-            self.rows.get_mut(&row).unwrap().last_t = t;
+            let batch = self.in_batch.is_some();
+            let r = self.rows.get_mut(&row).unwrap();
+            r.last_t = t;
+            r.contestable = !batch;
             self.touch(row);
         }
     }
@@ -128,6 +160,7 @@ impl<'a> CaseGen<'a> {
             let r = self.rows.get_mut(&row).unwrap();
             r.refs.insert(to);
             r.last_t = t;
+            r.contestable = false;
             self.touch(row);
         }
     }
@@ -149,6 +182,7 @@ impl<'a> CaseGen<'a> {
             let r = self.rows.get_mut(&row).unwrap();
             r.refs.remove(&to);
             r.last_t = t;
+            r.contestable = false;
             self.touch(row);
         }
     }
@@ -212,7 +246,7 @@ fn one_case(g: &mut Gen, prop: &str, id: usize, len: usize) -> Vec<String> {
     };
     let some_own = prop == "C03" && g.chance(1, 3);
     let r = rights(g, peers, some_own);
-    let mut pool: Vec<u64> = (1..=400).collect();
+    let mut pool: Vec<u64> = (2_000_001..=2_000_600).collect();
     pool.shuffle(&mut g.rng);
     let mut c = CaseGen {
         g,
